@@ -39,6 +39,7 @@ import (
 	"encoding/hex"
 	"encoding/json"
 	"fmt"
+	"runtime"
 	"sort"
 	"strings"
 	"time"
@@ -403,6 +404,8 @@ type vfDB struct {
 	center    *Center
 	pool      *TempPool
 	cachesize int
+
+	goroutines int // number of goroutines right after open
 }
 
 func vfStorageOptions() *leveldbopt.Options {
@@ -441,6 +444,28 @@ func (db *vfDB) open() {
 	vfMust(err)
 
 	db.pool = pool
+	db.goroutines = runtime.NumGoroutine()
+}
+
+// quiesce waits until the goroutines that the reads started have ended:
+// Center.dig cancels its other lookups when one temp answers and returns
+// without waiting for them, so a lookup can still be inside goleveldb after the
+// Center call returned; closing goleveldb under it crashes inside goleveldb.
+// A quiescent point is a point where those have finished.
+func (db *vfDB) quiesce() {
+	for i := 0; runtime.NumGoroutine() > db.goroutines; i++ {
+		if i > 20000 {
+			panic(fmt.Sprintf("harness: goroutines do not settle: %d > %d", runtime.NumGoroutine(), db.goroutines))
+		}
+
+		if i < 100 {
+			runtime.Gosched()
+
+			continue
+		}
+
+		time.Sleep(100 * time.Microsecond)
+	}
 }
 
 // close closes everything the way a node shutdown does (Center.Close does not
@@ -449,6 +474,8 @@ func (db *vfDB) close() {
 	if db.st == nil {
 		return
 	}
+
+	db.quiesce()
 
 	vfMust(db.center.Close())
 	vfMust(db.pool.Close())
